@@ -289,3 +289,56 @@ def lemma_len_long(i: bytes, r: bytes, content: bytes) -> None:
     assert cat(i, seq1(128 + len(r)), r, content)[len(i)] == 128 + len(r)
     assert cat(i, seq1(128 + len(r)), r, content)[len(i) + 1] == r[0]
     assert drop(cat(i, seq1(128 + len(r)), r, content), len(i) + 1 + len(r)) == content
+
+
+def lemma_le_increment(a: bytes, b: bytes, i: int, n: int) -> None:
+    """b is a with octet i incremented and the octets before it wrapped from 0xFF to 0 (little-endian carry):
+    le(b, n) == le(a, n) + 1."""
+    if n > i + 1:
+        lemma_le_increment(a, b, i, n - 1)
+    else:
+        lemma_le_wrap(a, b, i)
+
+
+def lemma_le_wrap(a: bytes, b: bytes, i: int) -> None:
+    """The first i octets of a are 0xFF and those of b are 0: le(a, i) == 256^i - 1 and le(b, i) == 0."""
+    if i > 0:
+        lemma_le_wrap(a, b, i - 1)
+
+
+def lemma_le_all255(a: bytes, n: int) -> None:
+    if n > 0:
+        lemma_le_all255(a, n - 1)
+
+
+def lemma_le_prefix(s: bytes, r: bytes, k: int) -> None:
+    """le over a prefix is unaffected by what follows."""
+    if k > 0:
+        lemma_le_prefix(s, r, k - 1)
+
+
+# ---- property-level lemmas of C07: what a writer emitted is what a reader sees, whatever follows it
+def lemma_tlv_roundtrip(s: bytes, tag_class: int, constructed: bool, number: int, content: bytes, rest: bytes) -> None:
+    """Unique readability: a TLV written with minimal header octets is parsed back to the same tag, length, content
+    and remainder, independently of the octets that follow."""
+    if id_low(s) >= 31:
+        lemma_b128end_prefix(drop(s, 1), rest, 0)
+        lemma_b128_prefix(drop(s, 1), rest, 0, id_len(s) - 1)
+        assert drop(cat(s, rest), 1) == cat(drop(s, 1), rest)
+    assert cat(s, rest)[0] == s[0]
+    assert id_len(cat(s, rest)) == id_len(s)
+    assert cat(s, rest)[id_len(s)] == s[id_len(s)]
+    if len_first(s) >= 128:
+        lemma_be_prefix(drop(s, id_len(s) + 1), rest, 0, len_first(s) - 128)
+        assert drop(cat(s, rest), id_len(s) + 1) == cat(drop(s, id_len(s) + 1), rest)
+    assert hdr_len(cat(s, rest)) == hdr_len(s)
+    assert val_len(cat(s, rest)) == val_len(s)
+    assert drop(cat(s, rest), hdr_len(s)) == cat(content, rest)
+
+
+def lemma_integer_roundtrip(w: bytes, tag_class: int, constructed: bool, number: int, c: bytes, value: int, rest: bytes) -> None:
+    lemma_tlv_roundtrip(w, tag_class, constructed, number, c, rest)
+
+
+def lemma_boolean_roundtrip(w: bytes, tag_class: int, constructed: bool, number: int, value: bool, rest: bytes) -> None:
+    lemma_tlv_roundtrip(w, tag_class, constructed, number, seq1(255 if value else 0), rest)
